@@ -329,10 +329,41 @@ func runVector(v M) (out M) {
 			b := ev.eval(m(p.(map[string]any)["t"]))
 			got = append(got, decodeInto(d, exact(b)))
 		}
+		// and one layer value serialises each payload in turn (a session's layer lives as long as the session);
+		// every packet is decrypted independently with its own IV
+		ser := make([]any, 0, len(pkts))
+		if s, err := ipmi.NewAES128CBC(k); err == nil {
+			buf := gopacket.NewSerializeBuffer()
+			for _, p := range pkts {
+				ser = append(ser, func() (r M) {
+					r = M{}
+					defer func() {
+						if x := recover(); x != nil {
+							r["panic"] = fmt.Sprint(x)
+						}
+					}()
+					buf.Clear()
+					err := gopacket.SerializeLayers(buf, gopacket.SerializeOptions{FixLengths: true, ComputeChecksums: true}, s, gopacket.Payload(ints(p.(map[string]any)["payload"])))
+					r["err"] = err != nil
+					if err == nil {
+						b := append([]byte(nil), buf.Bytes()...)
+						if len(b) >= 32 && len(b)%16 == 0 {
+							r["plain"] = toInts(ev.eval(M{"op": "aescbcdec", "key": M{"op": "bytes", "v": v["key"]},
+								"iv": M{"op": "bytes", "v": anyInts(b[:16])}, "ct": M{"op": "bytes", "v": anyInts(b[16:])}}))
+						} else {
+							r["plain"] = []any{}
+							r["badlen"] = len(b)
+						}
+					}
+					return r
+				}())
+			}
+		}
+		out["ser"] = ser
 		// the harness copies the expected payloads through without the terms
 		slim := make([]any, 0, len(pkts))
 		for _, p := range pkts {
-			slim = append(slim, M{"payload": p.(map[string]any)["payload"]})
+			slim = append(slim, M{"payload": p.(map[string]any)["payload"], "padded": p.(map[string]any)["padded"]})
 		}
 		out["packets"] = slim
 		out["got"] = got
